@@ -166,6 +166,7 @@ func probeOnce(it *harness.Interp, p string) string {
 func richProfile(t *tape.Tape) gen.Profile {
 	p := stdProfile(t)
 	p.MultiKw = true
+	p.VarCallArgs = true
 	p.JumpW = []int{0, 0, 2}[t.Intn(3)]
 	return p
 }
